@@ -37,13 +37,13 @@ impl Prop for C07 {
         }
     }
     fn rule(&self) -> String {
-        "AG from strata rand/expr/lr1/repo (cycle-free, with and without conflicts and precedence, random %avoid_insert), tables that can reduce forever without consuming input excluded and counted (open finding); 8 inputs per grammar of length <=24..30 built from sentences with 1-6 edits, random strings, empty input; token costs all 1 / 1..4 / 1..255. CPCT+ under the hooks (budget override, expansion cap 1500; cap hit => input not judged). Oracle: invariants over (value, errors): returns; error lexemes are input lexemes or a zero-length end-of-input lexeme; indices strictly increase and are >= min(prev+3, n); only the last error may lack repairs; value <=> every error has repairs; value and no errors => recovery-off parse accepts with the same tree; for a quarter of the inputs one lexeme is turned into unlexable text (the harness lexer yields an error item and stops or goes on): parse_generictree / parse_map / parse_actions, recovery off and on, must report that lexing error and never a value with an empty error list. Evaluation = one (grammar,input,costs). Non-trivial: >=2 errors, or an error at end of input, or a last error without repairs; distinct by hash(grammar,input,costs).".into()
+        "AG from strata rand/expr/lr1/repo (cycle-free, with and without conflicts and precedence, random %avoid_insert), tables that can reduce forever without consuming input excluded and counted (open finding); 8 inputs per grammar of length <=24..30 built from sentences with 1-6 edits, random strings, empty input; token costs all 1 / 1..4 / 1..255. CPCT+ under the hooks (budget override, expansion cap 1500; cap hit => input not judged). Oracle: invariants over (value, errors): returns; error lexemes are input lexemes or a zero-length end-of-input lexeme; indices strictly increase and are >= min(prev+3, n); only the last error may lack repairs; value <=> every error has repairs; value and no errors => recovery-off parse accepts with the same tree; for a third of the erroneous inputs the parse is repeated with the recovery time budget already used up (hook budget 0): it must return without a value, with the one error at the same lexeme and no repairs; for a quarter of the inputs one lexeme is turned into unlexable text (the harness lexer yields an error item and stops or goes on): parse_generictree / parse_map / parse_actions, recovery off and on, must report that lexing error and never a value with an empty error list. Evaluation = one (grammar,input,costs). Non-trivial: >=2 errors, or an error at end of input, or a last error without repairs; distinct by hash(grammar,input,costs).".into()
     }
     fn assumptions(&self) -> Vec<String> {
         vec!["termination is observed through a 20 s watchdog re-confirmed with 200 s in a fresh process".into()]
     }
     fn required_classes(&self, _tier: Tier) -> Vec<&'static str> {
-        vec!["c07:>=2-errors", "c07:error-at-eof", "c07:last-error-unrepaired", "grammar-with-conflicts", "grammar-conflict-free", "c07:lexing-error-in-input"]
+        vec!["c07:>=2-errors", "c07:error-at-eof", "c07:last-error-unrepaired", "grammar-with-conflicts", "grammar-conflict-free", "c07:lexing-error-in-input", "c07:budget-exhausted"]
     }
     fn evaluate(&self, case: &Value) -> Outcome {
         let mut o = Outcome::new();
@@ -83,6 +83,27 @@ impl Prop for C07 {
             let ctx = |m: &str| format!("{m}; input {input:?} costs {:?}\n{src}", rc.costs);
             if !check_c07(&mut o, &b, input, layout, &p, &ctx) {
                 return o;
+            }
+            // an exhausted time budget: the search gives up at once, the parse still returns, with
+            // one error that has no repairs, at the same lexeme, and without a value
+            if !p.errs.is_empty() && (input.len() + layout.tail) % 3 == 0 {
+                o.class("c07:budget-exhausted");
+                match crate::harness::parse_tree_no_budget(&b, input, layout, Some(&rc.costs)) {
+                    Err(e) => {
+                        o.fail("harness", "C07/harness", e);
+                        return o;
+                    }
+                    Ok((tree, errs)) => {
+                        if tree.is_some() || errs.len() != 1 || !errs[0].repairs.is_empty() || errs[0].start != p.errs[0].start || errs[0].tok_id != p.errs[0].tok_id {
+                            o.fail(
+                                "wrong",
+                                "C07/budget-exhausted",
+                                ctx(&format!("with no recovery time left: value {}, errors {:?}; expected no value and the one error at offset {} without repairs", tree.is_some(), errs.iter().map(|e| (e.start, e.repairs.len())).collect::<Vec<_>>(), p.errs[0].start)),
+                            );
+                            return o;
+                        }
+                    }
+                }
             }
             // the same input with one lexeme turned into unlexable text: the lexing error must
             // not get lost (a value with an empty error list would claim the input was accepted)
